@@ -194,6 +194,9 @@ func XMLDoc(r *rand.Rand) (doc string, toks []XTok) {
 				emit(XTok{Type: "Text", Data: t, Text: t})
 			case c == 5:
 				t := xmlText(r, "]]>")
+				if r.Intn(6) == 0 {
+					t = "" // an empty section
+				}
 				if r.Intn(3) == 0 {
 					t += Pick(r, []string{"]", "]]", "]>", "<a>", "<!--", "&"})
 					t = strings.ReplaceAll(t, "]]>", "]] >")
